@@ -257,6 +257,9 @@ func (l *Loaded) verifyFunc(r *Runner, fn *ssa.Function, sp *FuncSpec) (res *FnR
 			}
 		}
 	}
+	for _, ax := range r.specs.Axioms {
+		st.assume(r.newEnv(st, fn.Pkg).EvalBool(ax.E, st))
+	}
 	// declared representation invariants of pointer parameters (established by constructors; assumed here)
 	for i, p := range fn.Params {
 		pt, ok := p.Type().Underlying().(*types.Pointer)
